@@ -14,6 +14,9 @@ def cases_for(rng, tier):
     for items in forests:
         sp = gen_spelling(rng, items) if rng.random() < 0.7 else plain_spelling(items)
         out.append((items, sp, rng.choice(BF_CHOICES), rng.choice(["0", "1"])))
+    # chains nested 63..520 levels deep (per-ancestor bit masks, fixed stacks, recursion guards)
+    for items in deep_forests():
+        out.append((items, deep_spelling(items), rng.choice(BF_CHOICES), rng.choice(["0", "1"])))
     nrand = 1500 if tier == "quick" else 60000
     for _ in range(nrand):
         items = gen_forest(rng)
